@@ -24,12 +24,14 @@ def tie(rep, tier, rng, model_ok):
     b = [simgen.gen_sched(rng) for _ in range(150 if q else 4000)]
     c = [simgen.gen_multi_origin(rng) for _ in range(300 if q else 8000)]
     d = [simgen.gen_cancel_same_time(rng) for _ in range(200 if q else 5000)]
+    e = [simgen.gen_periodic_rearm(rng) for _ in range(150 if q else 4000)]
     simprops.run(rep, "C07", model_ok,
                  [("bursts", a, (1, 4) if q else (1, 2, 3, 4, 8, 16), ORACLES, nontrivial),
                   ("multi-origin", c, (1, 2, 4) if q else (1, 2, 3, 4, 8, 16), ORACLES + (oracles.o_burst_order, oracles.o_clock), lambda cs, o: True),
                   ("same-time-groups", d, (1, 4) if q else (1, 2, 4, 8, 16), ORACLES, nontrivial),
+                  ("periodic-rearm", e, (1, 3), ORACLES + (oracles.o_rearm_order,), lambda cs, o: True),
                   ("sched-1thread", b, (1,), ORACLES, nontrivial)],
-                 "bursts of 2-8 same-deadline events per origin (driver, and one handler invocation) to a mailbox of capacity 1..3 (the group task blocks) or 16, one-shot/keyed/periodic mixed, other deadlines interleaved; exact log comparison on every thread count (one origin per time, so the order is schedule-independent) + order oracle; multi-origin: the global scheduler and one or two models all have events due at the same time for the same targets (multiset comparison + per-origin order oracles); same-time groups of 3-7 driver actions mixing model-input and EventSource events. non-trivial = >=3 handlers at one time")
+                 "bursts of 2-8 same-deadline events per origin (driver, and one handler invocation) to a mailbox of capacity 1..3 (the group task blocks) or 16, one-shot/keyed/periodic mixed, other deadlines interleaved; exact log comparison on every thread count (one origin per time, so the order is schedule-independent) + order oracle; multi-origin: the global scheduler and one or two models all have events due at the same time for the same targets (multiset comparison + per-origin order oracles); periodic-rearm: a series armed by a model on itself whose every occurrence schedules a one-shot due exactly at the next occurrence: the occurrence (re-armed first) must run first; same-time groups of 3-7 driver actions mixing model-input and EventSource events. non-trivial = >=3 handlers at one time")
 
 
 def replay(rep, path, model_ok):
